@@ -113,4 +113,185 @@ theorem funcGetpath_ok {v : JV} {p : List JV} (hp : KIPath p) {x : JV} :
     funcGetpath v (.arr p) = .ok x ↔ getKI p v = some x := by
   rw [← funcGetpath_eq v p hp, toOption_eq_some]
 
+/-! ### setpath -/
+
+def valKv (kv : Bytes × JV) : Bytes × MV := (kv.1, .val kv.2)
+
+theorem shape_val_obj (kvs : List (Bytes × JV)) : MV.shape (.val (.obj kvs)) = .obj (kvs.map valKv) := rfl
+theorem shape_val_arr (xs : List JV) : MV.shape (.val (.arr xs)) = .arr (xs.map .val) := rfl
+
+theorem kvLookupM_map (k : Bytes) : ∀ kvs : List (Bytes × JV),
+    MV.kvLookupM k (kvs.map valKv) = (kvLookup k kvs).map MV.val
+  | [] => rfl
+  | (k', v') :: rest => by
+    simp only [List.map_cons, valKv, MV.kvLookupM, kvLookup]
+    split
+    · rfl
+    · exact kvLookupM_map k rest
+
+theorem toJVKvs_map_val : ∀ kvs : List (Bytes × JV), MV.toJVKvs? (kvs.map valKv) = some kvs
+  | [] => rfl
+  | (k, v) :: rest => by
+    have ih := toJVKvs_map_val rest
+    simp only [List.map_cons, valKv, MV.toJVKvs?, MV.toJV?] at ih ⊢
+    rw [ih]
+
+theorem toJVKvs_insert (k : Bytes) (u : MV) : ∀ kvs : List (Bytes × JV),
+    MV.toJVKvs? (MV.kvInsertM k u (kvs.map valKv)) = u.toJV?.map fun w => kvInsert k w kvs
+  | [] => by
+    simp only [List.map_nil, MV.kvInsertM, MV.toJVKvs?, kvInsert]
+    cases u.toJV? <;> rfl
+  | (k', v') :: rest => by
+    simp only [List.map_cons, valKv, MV.kvInsertM, kvInsert]
+    cases h : Bytes.cmp k k' with
+    | lt =>
+      have := toJVKvs_map_val rest
+      simp only [MV.toJVKvs?, MV.toJV?, this]
+      cases u.toJV? <;> rfl
+    | eq =>
+      have := toJVKvs_map_val rest
+      simp only [MV.toJVKvs?, this]
+      cases u.toJV? <;> rfl
+    | gt =>
+      have ih := toJVKvs_insert k u rest
+      simp only [MV.toJVKvs?, MV.toJV?, ih]
+      cases u.toJV? <;> rfl
+
+theorem toJVList_map_val : ∀ xs : List JV, MV.toJVList? (xs.map .val) = some xs
+  | [] => rfl
+  | x :: rest => by
+    have ih := toJVList_map_val rest
+    simp only [List.map_cons, MV.toJVList?, MV.toJV?, ih]
+
+theorem toJVList_append : ∀ (a b : List MV), MV.toJVList? (a ++ b) =
+    (MV.toJVList? a).bind fun xs => (MV.toJVList? b).map fun ys => xs ++ ys
+  | [], b => by cases h : MV.toJVList? b <;> simp [MV.toJVList?, h]
+  | x :: a, b => by
+    have ih := toJVList_append a b
+    simp only [List.cons_append, MV.toJVList?, ih]
+    cases x.toJV? <;> cases MV.toJVList? a <;> cases MV.toJVList? b <;> rfl
+
+theorem toJVList_set (u : MV) : ∀ (xs : List JV) (j : Nat), j < xs.length →
+    MV.toJVList? ((xs.map MV.val).set j u) = u.toJV?.map fun w => xs.set j w
+  | [], j, h => by simp at h
+  | x :: rest, 0, _ => by
+    simp only [List.map_cons, List.set_cons_zero, MV.toJVList?, toJVList_map_val]
+    cases u.toJV? <;> rfl
+  | x :: rest, j + 1, h => by
+    have ih := toJVList_set u rest j (by simpa using h)
+    simp only [List.map_cons, List.set_cons_succ, MV.toJVList?, MV.toJV?, ih]
+    cases u.toJV? <;> rfl
+
+theorem toJVList_replicate (m : Nat) : MV.toJVList? (List.replicate m (MV.val .null)) = some (List.replicate m .null) := by
+  have := toJVList_map_val (List.replicate m .null)
+  simpa using this
+
+theorem toJVList_extend (u : MV) (xs : List JV) (m : Nat) :
+    MV.toJVList? (xs.map MV.val ++ List.replicate m (MV.val .null) ++ [u]) =
+      u.toJV?.map fun w => xs ++ List.replicate m .null ++ [w] := by
+  rw [toJVList_append, toJVList_append, toJVList_map_val, toJVList_replicate]
+  simp only [MV.toJVList?, Option.bind_some, Option.map_some]
+  cases u.toJV? <;> simp
+
+theorem getD_map_val (xs : List JV) (j : Nat) : (xs.map MV.val).getD j (.val .null) = .val (xs.getD j .null) := by
+  simp only [List.getD_eq_getElem?_getD, List.getElem?_map]
+  cases xs[j]? <;> rfl
+
+
+
+theorem update_null_num (n : JV) (m : Num) (rest : List JV) :
+    update (.val n) (.val .null) (.num m :: rest) = update (.val n) (.val (.arr [])) (.num m :: rest) := by
+  simp only [update, MV.shape, List.map_nil, MV.isDel, Bool.false_eq_true, if_false]
+
+theorem setKI_null_num (n : JV) (m : Num) (rest : List JV) :
+    setKI n (.num m :: rest) .null = setKI n (.num m :: rest) (.arr []) := by
+  simp only [setKI, arrOf]
+
+theorem update_eq_arr (n : JV) (m : Num) (rest : List JV) (xs : List JV)
+    (ih : ∀ w, (update (.val n) (.val w) rest).toOption.bind MV.toJV? = setKI n rest w) :
+    (update (.val n) (.val (.arr xs)) (.num m :: rest)).toOption.bind MV.toJV? = setKI n (.num m :: rest) (.arr xs) := by
+  simp only [update, shape_val_arr, setKI, arrOf, idxOf, List.length_map, MV.isDel, Bool.false_eq_true, if_false]
+  by_cases h1 : clampIndex ((toInt? (.num m)).getD 0) (-1) xs.length < 0
+  · simp [h1, throw, throwThe, MonadExceptOf.throw, Except.toOption]
+  · simp only [h1, if_false]
+    by_cases h2 : clampIndex ((toInt? (.num m)).getD 0) (-1) xs.length < xs.length
+    · simp only [h2, if_true]
+      rw [getD_map_val, ← ih]
+      have hlt : (clampIndex ((toInt? (.num m)).getD 0) (-1) xs.length).toNat < xs.length := by omega
+      cases update (.val n) (.val (xs.getD (clampIndex ((toInt? (.num m)).getD 0) (-1) xs.length).toNat .null)) rest with
+      | error e => rfl
+      | ok u =>
+        simp only [bind, Except.bind, pure, Except.pure, toOption_ok, Option.bind_some, MV.toJV?, toJVList_set u xs _ hlt]
+        cases u.toJV? <;> rfl
+    · simp only [h2, if_false]
+      by_cases h3 : (toInt? (.num m)).getD 0 ≥ 536870912
+      · simp [h3, throw, throwThe, MonadExceptOf.throw, Except.toOption]
+      · simp only [h3, if_false]
+        rw [← ih]
+        cases update (.val n) (.val .null) rest with
+        | error e => rfl
+        | ok u =>
+          simp only [bind, Except.bind, pure, Except.pure, toOption_ok, Option.bind_some, MV.toJV?, toJVList_extend]
+          cases u.toJV? <;> rfl
+
+theorem update_eq (n : JV) : ∀ (p : List JV) (v : JV), KIPath p →
+    (update (.val n) (.val v) p).toOption.bind MV.toJV? = setKI n p v
+  | [], v, _ => rfl
+  | e :: rest, v, hp => by
+    have ih := fun w => update_eq n rest w hp.tail
+    rcases hp e (by simp) with ⟨k, rfl⟩ | ⟨m, rfl⟩
+    · cases v with
+      | null =>
+        have := ih .null
+        simp only [update, MV.shape, MV.kvLookupM, MV.isDel, Bool.false_eq_true, if_false, setKI, ← this]
+        cases update (.val n) (.val .null) rest with
+        | error e => rfl
+        | ok u =>
+          simp only [bind, Except.bind, pure, Except.pure, toOption_ok, Option.bind_some, MV.kvInsertM, MV.toJV?, MV.toJVKvs?]
+          cases u.toJV? <;> rfl
+      | obj kvs =>
+        have := ih ((kvLookup k kvs).getD .null)
+        simp only [update, shape_val_obj, kvLookupM_map, setKI, ← this]
+        cases hl : kvLookup k kvs with
+        | none =>
+          simp only [Option.map_none, MV.isDel, Bool.false_eq_true, if_false, Option.getD_none]
+          cases update (.val n) (.val .null) rest with
+          | error e => rfl
+          | ok u =>
+            simp only [bind, Except.bind, pure, Except.pure, toOption_ok, Option.bind_some, MV.toJV?, toJVKvs_insert]
+            cases u.toJV? <;> rfl
+        | some x =>
+          simp only [Option.map_some, Option.getD_some]
+          cases update (.val n) (.val x) rest with
+          | error e => rfl
+          | ok u =>
+            simp only [bind, Except.bind, pure, Except.pure, toOption_ok, Option.bind_some, MV.toJV?, toJVKvs_insert]
+            cases u.toJV? <;> rfl
+      | arr xs => simp [update, shape_val_arr, setKI, throw, throwThe, MonadExceptOf.throw, Except.toOption]
+      | bool b => simp [update, MV.shape, setKI, throw, throwThe, MonadExceptOf.throw, Except.toOption]
+      | num b => simp [update, MV.shape, setKI, throw, throwThe, MonadExceptOf.throw, Except.toOption]
+      | str b => simp [update, MV.shape, setKI, throw, throwThe, MonadExceptOf.throw, Except.toOption]
+    · cases v with
+      | null => rw [update_null_num, setKI_null_num]; exact update_eq_arr n m rest [] ih
+      | arr xs => exact update_eq_arr n m rest xs ih
+      | obj kvs => simp [update, shape_val_obj, setKI, arrOf, throw, throwThe, MonadExceptOf.throw, Except.toOption]
+      | bool b => simp [update, MV.shape, setKI, arrOf, throw, throwThe, MonadExceptOf.throw, Except.toOption]
+      | num b => simp [update, MV.shape, setKI, arrOf, throw, throwThe, MonadExceptOf.throw, Except.toOption]
+      | str b => simp [update, MV.shape, setKI, arrOf, throw, throwThe, MonadExceptOf.throw, Except.toOption]
+
+/-- `funcSetpath` on a key/index path is `setKI` -/
+theorem funcSetpath_eq (v : JV) (p : List JV) (n : JV) (hp : KIPath p) :
+    (funcSetpath v (.arr p) n).toOption = setKI n p v := by
+  rw [← update_eq n p v hp]
+  simp only [funcSetpath]
+  cases update (.val n) (.val v) p with
+  | error e => rfl
+  | ok u =>
+    simp only [toOption_ok, Option.bind_some]
+    cases u.toJV? <;> rfl
+
+theorem funcSetpath_ok {v : JV} {p : List JV} {n : JV} (hp : KIPath p) {w : JV} :
+    funcSetpath v (.arr p) n = .ok w ↔ setKI n p v = some w := by
+  rw [← funcSetpath_eq v p n hp, toOption_eq_some]
+
 end Gojq.Pairs
